@@ -16,7 +16,7 @@ PREAMBLE = ("From Coq Require Import NArith ZArith List. Import ListNotations. O
 RUNNER = "run_gdec"
 FIELDS = ["per step (construction first): [ok, return value...] (decode ops: 1 Ok / 0 Err)", "decoder state [tag, remaining | first header byte, flag] ([] after finish)",
           "the seven iovec fields of family geo (empty after a failed finish)", "[live chunks, live bytes, every slice in live memory]"]
-SHARD = 150
+SHARD = 60
 BLOCK = 10
 
 
@@ -56,7 +56,7 @@ def canon(obs, is_model):
         if not f[0]:
             out.append([b[0], b[1], None, b[9][:2]])
             continue
-        dig = f[2] if is_model else hash_bytes(f[2])
+        dig = f[2]          # both sides print the digest [length, s1, s2]
         out.append([b[0], b[1], [f[0], f[1], dig, f[3], f[4], f[5], f[6]], b[9][:2]])
     return out
 
